@@ -235,7 +235,7 @@ func paramWrittenToTar(c *Ctx, fn *ssa.Function, p *ssa.Parameter, depth int) bo
 }
 
 func checkC03(c *Ctx, r *Report) {
-	r.Rules = []string{"O1 every digest is fed by the stream that is shipped and read only after it is complete", "O2 apk digests sit below the compressor; datahash/signed digest are the segment writers' results", "F7 md5sums names the header that was written", "F8 mtree verbs bound to the matching fields; .PKGINFO first; one size value", "F9 size accumulators are fed from the copied entries", "F8-line every shipped entry type gets an mtree line", "shipped-F12-apk the apk segments shipped are the buffers that were hashed (imported from C10)", "F9-files-only directories and links add nothing to the installed size", "fresh-T6-no-carried-state no digest (or anything else) is kept in package-level state between builds (rule of C07)", "F8-time the mtree entry's time is the time written to the member's header"}
+	r.Rules = []string{"O1 every digest is fed by the stream that is shipped and read only after it is complete", "O2 apk digests sit below the compressor; datahash/signed digest are the segment writers' results", "F7 md5sums names the header that was written", "F8 mtree verbs bound to the matching fields; .PKGINFO first; one size value", "F9 size accumulators are fed from the copied entries", "F8-line every shipped entry type gets an mtree line", "shipped-F12-apk the apk segments shipped are the buffers that were hashed (imported from C10)", "F9-files-only directories and links add nothing to the installed size", "fresh-T6-no-carried-state no digest (or anything else) is kept in package-level state between builds (rule of C07)", "F8-time the mtree entry's time is the time written to the member's header", "F8-link the mtree link target is the entry's source unrewritten", "F7-files-only directories and links get no md5sums line", "kind-F1-mode-tag an rpm regular file keeps the mode bits that make it one (imported from C01)"}
 	r.Explanation = "Stream-coupling and ordering rules over go/ssa for every hash nfpm creates on a packaging path (internal/sign excluded). (O1) each hash must be fed in one of three coupled ways — a TeeReader on the very reader that io.Copy drains into the archive writer, an io.MultiWriter that also contains the archive/output writer and is the destination of one copy or the sink of the compressor, or Write of the same SSA value that is written to the archive — and never by a separate read of the data; every Sum is dominated by the completion of that feeding (the copy, or the Close of the compressor the hash sits under). (O2) in apk the hash is an element of the MultiWriter that is the gzip writer's sink, so it covers the bytes as shipped. (F7) the name printed into md5sums is the Name field of the header handed to WriteHeader. (F8) in the mtree line formats each key=%verb is bound to the like-named field, .PKGINFO's entry is put first, and the .PKGINFO size in the tar header and in the mtree is one value; digests go to the fields of their own algorithm. (F9) installed-size accumulators are fed from the entries' sizes, divided by 1024 for deb/ipk. Digest and size values themselves, and rpmpack's internal digests, are not computed."
 	r.Explanation += " (F8-line) the mtree line writer, evaluated for every entry type the archlinux payload writer ships, must reach a write. (shipped-F12-apk, imported from C10) the buffers the apk segments were hashed from are the ones concatenated into the package, all of them, on every path."
 	r.Explanation += " (F9-files-only) the payload writer is evaluated for every directory and link type: no addition whose addend derives from the entry's size is live with a value other than the constant zero."
@@ -325,6 +325,10 @@ func checkC03(c *Ctx, r *Report) {
 	r.Floor("shipped-F12-apk", importRules(c, r, checkC10, "shipped-", []string{"F12-apk"}, func(o Obligation) bool {
 		return strings.Contains(o.Construct, "segment order of concatenation")
 	}, "apk segments"), 1)
+	// rpm takes the size and digest it records from the kind of entry the
+	// mode's type bits state: a regular file's mode carries none of the
+	// packager's making (rule of C01)
+	r.Floor("kind-F1-mode-tag", importRules(c, r, checkC01, "kind-", []string{"F1-mode-tag"}, nil), 1)
 }
 
 func uniqStrings(s []string) []string {
@@ -479,6 +483,41 @@ func checkMd5sumsNames(c *Ctx, r *Report, pa *provAnalysis) {
 			if mi, ok := name.(*ssa.MakeInterface); ok {
 				name = mi.X
 			}
+			// the line is written by a helper that is handed the name: the
+			// rule is applied where the helper is called
+			if prm, isPrm := name.(*ssa.Parameter); isPrm {
+				idx := -1
+				for i, q := range fn.Params {
+					if q == prm {
+						idx = i
+					}
+				}
+				sites := pa.callSites(fn)
+				if idx < 0 || len(sites) == 0 {
+					r.Fail("F7", fmt.Sprintf("deb md5sums line#%d in %s", n, c.funcKey(fn)), c.instrPos(call), "the name is a parameter no call site binds")
+					return
+				}
+				n--
+				for _, cs := range sites {
+					n++
+					arg := cs.Common().Args[idx]
+					okS, whyS := md5NameMatchesHeader(c, pa, arg, cs.Parent())
+					r.Check(okS, "F7", fmt.Sprintf("deb md5sums line#%d in %s", n, c.funcKey(cs.Parent())), c.instrPos(cs), whyS)
+				}
+				return
+			}
+			okName, why := md5NameMatchesHeader(c, pa, name, fn)
+			r.Check(okName, "F7", fmt.Sprintf("deb md5sums line#%d in %s", n, c.funcKey(fn)), c.instrPos(call), why)
+		})
+	}
+	r.Floor("F7", n, 2)
+}
+
+// md5NameMatchesHeader: the name printed in an md5sums line (name, in fn) is
+// the name of the member written.
+func md5NameMatchesHeader(c *Ctx, pa *provAnalysis, name ssa.Value, fn *ssa.Function) (bool, string) {
+	{
+		{
 			okName := false
 			why := ""
 			// (a) load of <header>.Name where header is handed to WriteHeader in fn
@@ -516,10 +555,9 @@ func checkMd5sumsNames(c *Ctx, r *Report, pa *provAnalysis) {
 			if why == "" {
 				why = "the md5sums line must name the member exactly as its tar header does (derives from {" + pa.Of(name).String() + "})"
 			}
-			r.Check(okName, "F7", fmt.Sprintf("deb md5sums line#%d in %s", n, c.funcKey(fn)), c.instrPos(call), why)
-		})
+			return okName, why
+		}
 	}
-	r.Floor("F7", n, 2)
 }
 
 var verbRe = regexp.MustCompile(`(?:([a-z0-9]+)=)?%[0-9.]*[a-zA-Z]`)
@@ -641,6 +679,8 @@ func checkMtree(c *Ctx, r *Report, pa *provAnalysis) {
 	checkMtreeLines(c, r)
 	checkMtreeSizeAgrees(c, r, pk)
 	// digests go to the field of their own algorithm; sizes come from one value
+	nLink := 0
+	defer func() { r.Floor("F8-link", nLink, 1) }()
 	for _, fn := range sortedFuncs(c, c.Reach(pk.Package)) {
 		forEachInstr(fn, func(in ssa.Instruction) {
 			st, ok := in.(*ssa.Store)
@@ -652,6 +692,21 @@ func checkMtree(c *Ctx, r *Report, pa *provAnalysis) {
 				return
 			}
 			name := fieldName(fa.X.Type(), fa.Field)
+			if name == "LinkSource" {
+				// the link target listed is the one the archive carries: the
+				// entry's source as it stands (the header's Linkname, C01)
+				nLink++
+				pv := pa.Of(st.Val)
+				rew := ""
+				for _, a := range pv.list() {
+					if strings.HasPrefix(a, "call:") {
+						rew = a
+					}
+				}
+				r.Check(pv.has("Content.Source") && rew == "", "F8-link", fmt.Sprintf("archlinux mtree link target#%d in %s is the entry's source as written", nLink, c.funcKey(fn)), c.instrPos(st),
+					fmt.Sprintf("the listed target derives from {%s}; the tar header carries the source itself, so a rewritten target (%s) makes the listing disagree with the link shipped", pv.String(), rew))
+				return
+			}
 			if name != "MD5" && name != "SHA256" {
 				return
 			}
@@ -909,8 +964,17 @@ func checkPAXChecksum(c *Ctx, r *Report) {
 // addition whose addend derives from the entry's size (which, for a link, is
 // the size of whatever the link's source happens to name on the build host)
 // must not be live, unless the addend is the constant zero there.
+func isMD5Line(in ssa.Instruction) bool {
+	call, ok := in.(*ssa.Call)
+	if !ok || !calleeIs(call, "fmt", "", "Fprintf") || len(call.Call.Args) < 2 {
+		return false
+	}
+	f := constOrEmpty(call.Call.Args[1])
+	return strings.Contains(f, "%x") && strings.Contains(f, "%s")
+}
+
 func checkSizeOnlyForBodies(c *Ctx, r *Report, pa *provAnalysis) {
-	n := 0
+	n, nMD5 := 0, 0
 	for _, pk := range c.Packagers {
 		if pk.Format == "" || pk.Format == "rpm" {
 			continue
@@ -964,9 +1028,38 @@ func checkSizeOnlyForBodies(c *Ctx, r *Report, pa *provAnalysis) {
 			}
 			r.Check(bad == "", "F9-files-only", fmt.Sprintf("%s: an entry of type %q adds nothing to the installed size", pk.Format, typ), pos,
 				"for this entry type the addition of "+bad+" is live: the entry ships no body, and its recorded size is that of whatever its source names on the build host (a link's target), so the stated size exceeds the payload")
+			if pk.Format == "deb" {
+				// ... and gets no md5sums line ("one line per regular file")
+				var line ssa.Instruction
+				for _, li := range fr.LiveInstrs() {
+					if isMD5Line(li.In) {
+						line = li.In
+					}
+				}
+				nMD5++
+				lpos := c.pos(w.Pos())
+				if line != nil {
+					lpos = c.instrPos(line)
+				}
+				r.Check(line == nil, "F7-files-only", fmt.Sprintf("deb: an entry of type %q gets no md5sums line", typ), lpos,
+					"for this entry type the write of a digest line is live: md5sums would list a directory or link (with the digest of nothing), and dpkg --verify reports an untouched installation as modified")
+			}
+		}
+		if pk.Format == "deb" {
+			// the recogniser sees the line for a regular file
+			ev := cellEvaluator(c, "file", nil)
+			fr := ev.Explore(w, make([]AV, len(w.Params)))
+			seen := false
+			for _, li := range fr.LiveInstrs() {
+				if isMD5Line(li.In) {
+					seen = true
+				}
+			}
+			r.Check(seen, "F7-files-only", "deb: a regular file gets its md5sums line (control)", c.pos(w.Pos()), "no digest-line write is live for a regular file: the recogniser no longer matches how md5sums is written")
 		}
 	}
 	r.Floor("F9-files-only", n, 8)
+	r.Floor("F7-files-only", nMD5, 2)
 }
 
 func checkSizes(c *Ctx, r *Report, pa *provAnalysis) {
@@ -1096,6 +1189,31 @@ func digestAlgoOf(c *Ctx, v ssa.Value, depth int) string {
 		return ""
 	}
 	switch x := v.(type) {
+	case *ssa.Parameter:
+		// a constructor's parameter: what every call site binds to it
+		fn := x.Parent()
+		idx := -1
+		for i, q := range fn.Params {
+			if q == x {
+				idx = i
+			}
+		}
+		sites := newProv(c).callSites(fn)
+		if idx < 0 || len(sites) == 0 {
+			return ""
+		}
+		algo := ""
+		for _, cs := range sites {
+			if idx >= len(cs.Common().Args) {
+				return ""
+			}
+			a := digestAlgoOf(c, cs.Common().Args[idx], depth+1)
+			if a == "" || algo != "" && a != algo {
+				return ""
+			}
+			algo = a
+		}
+		return algo
 	case *ssa.Call:
 		if recv := callReceiver(x); recv != nil {
 			rv := stripIface(recv)
@@ -1148,7 +1266,58 @@ func checkMtreeSizeAgrees(c *Ctx, r *Report, pk *Packager) {
 		return
 	}
 	hdr := map[string]bool{}
-	var mt []*ssa.Store
+	// stores into an MtreeEntry field: in the writer itself, or in a
+	// constructor it calls with the entry at hand (the expression is then read
+	// with the constructor's entry parameter replaced by the argument, and the
+	// store is placed where the constructor is called)
+	type mstore struct {
+		st    *ssa.Store
+		val   ssa.Value
+		expr  func(v ssa.Value) string
+		block *ssa.BasicBlock
+	}
+	mtreeStores := func(field string) []mstore {
+		var out []mstore
+		scan := func(fn *ssa.Function, expr func(ssa.Value) string, block func(*ssa.Store) *ssa.BasicBlock) {
+			forEachInstr(fn, func(in ssa.Instruction) {
+				st, ok := in.(*ssa.Store)
+				if !ok {
+					return
+				}
+				fa, ok := st.Addr.(*ssa.FieldAddr)
+				if !ok || fieldName(fa.X.Type(), fa.Field) != field || !strings.HasSuffix(derefType(fa.X.Type()).String(), "MtreeEntry") {
+					return
+				}
+				out = append(out, mstore{st, st.Val, expr, block(st)})
+			})
+		}
+		scan(w, func(v ssa.Value) string { return valueExpr(c, v, 0) }, func(st *ssa.Store) *ssa.BasicBlock { return st.Block() })
+		forEachInstr(w, func(in ssa.Instruction) {
+			call, ok := in.(*ssa.Call)
+			if !ok {
+				return
+			}
+			g := call.Call.StaticCallee()
+			if g == nil || !c.isModuleFunc(g) || len(g.Blocks) == 0 || g.Signature.Results().Len() != 1 || !strings.HasSuffix(derefType(g.Signature.Results().At(0).Type()).String(), "MtreeEntry") {
+				return
+			}
+			entryArg := ""
+			nEntry := 0
+			for i, q := range g.Params {
+				if isContentPtr(q.Type()) && i < len(call.Call.Args) {
+					entryArg = valueExpr(c, call.Call.Args[i], 0)
+					nEntry++
+				}
+			}
+			if nEntry != 1 {
+				return
+			}
+			scan(g, func(v ssa.Value) string {
+				return strings.ReplaceAll(valueExpr(c, v, 0), "param:Content", entryArg)
+			}, func(*ssa.Store) *ssa.BasicBlock { return call.Block() })
+		})
+		return out
+	}
 	forEachInstr(w, func(in ssa.Instruction) {
 		st, ok := in.(*ssa.Store)
 		if !ok {
@@ -1158,20 +1327,18 @@ func checkMtreeSizeAgrees(c *Ctx, r *Report, pk *Packager) {
 		if !ok || fieldName(fa.X.Type(), fa.Field) != "Size" {
 			return
 		}
-		switch {
-		case isNamed(derefType(fa.X.Type()), "archive/tar", "Header"):
+		if isNamed(derefType(fa.X.Type()), "archive/tar", "Header") {
 			hdr[valueExpr(c, st.Val, 0)] = true
-		case strings.HasSuffix(derefType(fa.X.Type()).String(), "MtreeEntry"):
-			mt = append(mt, st)
 		}
 	})
 	n := 0
-	for _, st := range mt {
+	for _, m := range mtreeStores("Size") {
+		st := m.st
 		if k, isK := st.Val.(*ssa.Const); isK && k.Value != nil && k.Int64() == 0 {
 			continue
 		}
 		n++
-		e := valueExpr(c, st.Val, 0)
+		e := m.expr(st.Val)
 		r.Check(hdr[e], "F8-size", fmt.Sprintf("archlinux: mtree size#%d is the size written to the member's header", n), c.instrPos(st),
 			fmt.Sprintf("the .MTREE entry takes its size from %s, the tar headers of this function from {%s}: when the two can differ the line describes a member of another length", shorten(e, 80), shorten(joinSorted(hdr), 160)))
 	}
@@ -1179,8 +1346,9 @@ func checkMtreeSizeAgrees(c *Ctx, r *Report, pk *Packager) {
 	// the same for the time: the .MTREE entry states the modification time
 	// the member's header carries (paired within the block that builds both)
 	type tstore struct {
-		st   *ssa.Store
-		expr string
+		st    *ssa.Store
+		expr  string
+		block *ssa.BasicBlock
 	}
 	var hdrT, mtT []tstore
 	unixOf := func(v ssa.Value) ssa.Value {
@@ -1201,20 +1369,20 @@ func checkMtreeSizeAgrees(c *Ctx, r *Report, pk *Packager) {
 		if !ok {
 			return
 		}
-		switch {
-		case isNamed(derefType(fa.X.Type()), "archive/tar", "Header") && fieldName(fa.X.Type(), fa.Field) == "ModTime":
-			hdrT = append(hdrT, tstore{st, valueExpr(c, st.Val, 0)})
-		case strings.HasSuffix(derefType(fa.X.Type()).String(), "MtreeEntry") && fieldName(fa.X.Type(), fa.Field) == "Time":
-			mtT = append(mtT, tstore{st, valueExpr(c, unixOf(st.Val), 0)})
+		if isNamed(derefType(fa.X.Type()), "archive/tar", "Header") && fieldName(fa.X.Type(), fa.Field) == "ModTime" {
+			hdrT = append(hdrT, tstore{st, valueExpr(c, st.Val, 0), st.Block()})
 		}
 	})
+	for _, m := range mtreeStores("Time") {
+		mtT = append(mtT, tstore{m.st, m.expr(unixOf(m.st.Val)), m.block})
+	}
 	nt := 0
 	for _, m := range mtT {
 		var same []string
 		all := map[string]bool{}
 		for _, h := range hdrT {
 			all[h.expr] = true
-			if h.st.Block() == m.st.Block() {
+			if h.block == m.block {
 				same = append(same, h.expr)
 			}
 		}
